@@ -206,7 +206,10 @@ def interface_shape(chk, units):
                 if recqn.startswith("bspline::exceptions::"):
                     continue
                 is_assign = d.get("op") in ASSIGN_OPS
-                if not (d.get("ctor") or d.get("dtor") or d.get("const") or d.get("static") or is_assign):
+                # an &&-qualified member can only be called on an expiring object (temporary / std::move): consuming it is
+                # not a mutation of a named operand
+                if not (d.get("ctor") or d.get("dtor") or d.get("const") or d.get("static") or is_assign or
+                        d.get("refq") == 2):
                     problems.append("public non-const member function that is not an assignment operator")
                 if rt.endswith("&") and not rt.startswith("const ") and not is_assign:
                     problems.append("returns a non-const reference (%s)" % rt[:60])
@@ -933,6 +936,20 @@ def api_params(chk, units, baseline=None, files=None):
     else:
         base = baseline
     n, seen, flagged = 0, set(), set()
+    # an ADDED overload taking a true rvalue reference (`Spline&&`, not a deduced `P&&`) next to the surviving const& one
+    # binds temporaries only: named and const arguments still go to the const& overload - not a change of this contract
+    import re as _re
+    keeps_cref, forwarding = set(), set()
+    for u in units:
+        for d in u.decls.values():
+            if d["k"] != "fn" or not C.in_lib(d.get("pfile", "")):
+                continue
+            key = "%s|%d" % (d.get("pqn"), len(d["params"]))
+            for i, p_ in enumerate(d["params"]):
+                if _pkind(p_["type"]) == "cref":
+                    keeps_cref.add((key, i))
+                if d.get("dependent") and _re.fullmatch(r"type-parameter-\d+-\d+ &&", p_["type"].strip()):
+                    forwarding.add((key, i))
     # every declaration (pattern and instantiations) is compared with the tabulated passing modes (one per function template), not instantiations
     for u in units:
         for d in u.decls.values():
@@ -956,6 +973,8 @@ def api_params(chk, units, baseline=None, files=None):
                 n += 1
             for i, (a, b) in enumerate(zip(was, now)):
                 if (key, i, b) in flagged:
+                    continue
+                if a == "cref" and b == "rref" and (key, i) in keeps_cref and (key, i) not in forwarding:
                     continue
                 if a == "cref" and b in ("ref", "rref"):
                     flagged.add((key, i, b))
